@@ -102,6 +102,9 @@ EditsClusterEnum == {[kind |-> "edit", res |-> "r1", field |-> "f1", value |-> "
 \* fault family: every history of up to two operations is a base of the fault sweep
 MenuFaultEnum == Installs({"cA"}, B, B, F, F, F) \cup Upgrades({"cB"}, B, B, {0}, F, F, F) \cup Rollbacks({0}, {0}, F, B, F)
                  \cup UpInstalls({"cA"}, B, F, F, F, F) \cup Uninstalls(B, F, F)
+\* ownership family: a hook's name re-used by a template, with a stranger of that name arriving in between
+MenuOwnHookEnum == Installs({"cH"}, F, F, B, F, F) \cup Upgrades({"cU", "cA"}, F, F, {0}, F, B, F)
+EditsOwnHookEnum == {[kind |-> "oobnew", res |-> "h2", field |-> "", value |-> own] : own \in {"none", "othername", "me"}}
 MenuLedgerEnum == Installs({"cA"}, B, F, F, F, F) \cup Upgrades({"cB"}, F, F, {0, 2}, F, F, F) \cup Rollbacks({0, 1}, {0}, F, F, F)
                   \cup Uninstalls(B, F, F) \cup UpInstalls({"cB"}, F, F, F, F, F)
 MenuHooksEnum == {U("test", "none")} \cup Installs({"cH", "cJ"}, F, F, B, F, F) \cup Upgrades({"cI", "cJ"}, F, F, {0}, F, F, F) \cup Rollbacks({0}, {0}, F, F, F)
@@ -169,6 +172,7 @@ EditsSome == {[kind |-> "edit", res |-> "r1", field |-> "f1", value |-> "z"],
 
 EditsNew == {[kind |-> "oobnew", res |-> r, field |-> "", value |-> own] :
                 r \in {"r3", "r2"}, own \in {"none", "othername", "me"}}
+            \cup {[kind |-> "oobnew", res |-> "h2", field |-> "", value |-> "none"]}   \* (a stranger under a hook's name)
 EditsSomeNew == EditsSome \cup EditsNew
 GuardTrue(m) == TRUE
 \* simulation bias: on an empty ledger start with an install (other operations just fail at once)
